@@ -169,6 +169,7 @@ struct Ctx {
     uint32_t op_allocs = 0;   // SUT allocations attempted by the last run_sut
     std::string site;         // op name + operand storage classes (filled by the op)
     bool fault_alloc_relevant = false;
+    const void *returned_ref = nullptr;   // the last library call yielded a reference (not a value): address of the object referred to
     // run-level flags used by non-trivial rules
     bool crossed_limit = false, touched_moved_from = false;
     bool run_probe[PR__COUNT] = {false};
@@ -207,6 +208,7 @@ void update_fatal_ctx(const Ctx &c);   // run.cpp: refresh the FATAL-line contex
 uint64_t op_budget(const Ctx &c);
 // run f() as library code under the heap fault plan and the step watchdog; classify what it throws
 template <class F> ExcKind run_sut(Ctx &c, const Op &op, F &&f) {
+    c.returned_ref = nullptr;
     simrt::heap_op_begin((op.fault & F_ALLOC) ? op.fa : 0);
     simrt::clock_arm(op_budget(c));
     ExcKind ex = EX_NONE;
@@ -228,6 +230,14 @@ template <class F> ExcKind run_sut(Ctx &c, const Op &op, F &&f) {
     if (c.stats) { c.stats->steps += used; c.stats->exceptions[ex]++; }
     return ex;
 }
+// Build a pool object from what a const library call yields, the way `T x = call();` does.  When the call yields a *reference* instead
+// of a value the address referred to is remembered; settle() reports it if it lies inside a live pool object ("every string or
+// buffer it returns owns its own storage": a reference into the source is an alias, whatever a later copy of it would look like).
+template <class T, class F> inline void emplace_fresh(Ctx &c, void *mem, F &&f) {
+    if constexpr (std::is_reference_v<decltype(f())>) { auto &&r = f(); c.returned_ref = static_cast<const void *>(&r); new (mem) T(r); }
+    else new (mem) T(f());
+}
+#define FRESH(T, ...) emplace_fresh<T>(c, mem, [&]() -> decltype(auto) { return (__VA_ARGS__); })
 // run harness-side code that may legitimately touch library objects (temp construction, destruction of
 // temporaries) without being subject to the fault plan
 template <class F> void run_quiet(F &&f) { simrt::heap_op_begin(0); f(); }
